@@ -1178,7 +1178,7 @@ class Grid:
 
             # get dim with position to
             new_dim_name = ax.coords[ax_to]
-            renamed = padded.rename(**{dim: new_dim_name})
+            renamed = padded.rename({dim: new_dim_name})
 
             # drop all coords to avoid conflicts when attaching new ones
             coordless = renamed.drop_vars(renamed.coords)
